@@ -103,8 +103,19 @@ def declared_everywhere(ctx):
     """C identifiers every generated unit sees: physics prototypes (with definitions) and constant externs."""
     tree = ctx.tree
     ctx.saw(PHYS_H), ctx.saw(CONST_H)
-    protos = set(re.findall(r"\b(\w+)\s*\(", strip_comments(tree.read(PHYS_H))))
-    protos -= {"if", "for", "while", "defined"}
+    # (from the template's TEXT items: what stands inside {% .. %} tags is not C)
+    hitems = J.flatten(tree, PHYS_H, {})
+    protos, conditional = set(), {}
+    for it, stack in J.walk_items(hitems):
+        if it[0] == "text":
+            found = set(re.findall(r"\b(\w+)\s*\(", strip_comments(it[1]))) - {"if", "for", "while", "defined"}
+            protos |= found
+            # (tests about the network; a test on the configuration -- device, method -- selects a build, not a network)
+            tests = [x[1] for x in stack if x[0] in ("if+", "if-") and "network" in J.names_of(x[1])]
+            for p_ in found:
+                if tests:
+                    conditional.setdefault(p_, J.show(tests[-1]))
+    declared_everywhere.conditional = {p_: t for p_, t in conditional.items()}
     sk = Skel(J.flatten(tree, PHYS_C, {}))
     defs = {f.name for f in sk.funcs}
     consts = set(re.findall(r"extern\s+\S+\s+double\s+(\w+)\s*;", J.text_of(J.flatten(tree, CONST_H, {}), lambda it: "SPEC")))
@@ -140,6 +151,19 @@ def check(ctx):
             ctx.check(c in cdefs, "R2", f"constant {c} has a definition", (CONST_H, 0), f"extern {c} is defined in naunet_constants.cpp")
         else:
             ctx.unrec("R2", f"constant {c} has a definition", (CONST_C, 0), f"{c} occurs in naunet_constants.cpp but its definition is not recognised")
+    # a prototype under a `{% if <something about the network> %}` exists in some networks only: whoever registers a text that calls
+    # it does so regardless of that test
+    for p, test in sorted(getattr(declared_everywhere, "conditional", {}).items()):
+        users = []
+        for c2 in REACTION_CLASSES + GRAIN_CLASSES + ["ThermalProcess"]:
+            for label, text, file, line in _texts_of_class(rm, pkg, c2, regs):
+                if re.search(r"\b" + re.escape(p) + r"\s*\(", text):
+                    users.append((f"{c2}: {label}", file, line))
+        if users:
+            ctx.bad("R2", f"physics prototype {p} declared for every network", (PHYS_H, 0), f"{p} is declared only `{{% if {test} %}}`, but {users[0][0]} ({users[0][1]}:{users[0][2]}) "
+                    f"calls it whatever the network contains: undeclared function where the test fails", expected="an unconditional prototype and definition", found=f"{{% if {test} %}}")
+        else:
+            ctx.ok("R2", f"physics prototype {p} declared for every network", (PHYS_H, 0), "conditional, and no registered text calls it")
     universal = None
     for c in REACTION_CLASSES:
         s = {x.text for x in regs[c] if not x.param}
@@ -1462,6 +1486,8 @@ _DECL_MACROS = ('{% macro declare_params(components, ctype="realtype", indent=4)
                 '{% macro declare_deriveds(components, ctype="realtype", indent=4) -%}\n{% for name, expr in components | collect_variable_items("deriveds") -%}\n{{ " " * indent }}{{ ctype }} {{ name }} = {{ expr }};\n{% endfor %}\n{%- endmacro %}\n'
                 '{% macro declare_locals(components, ctype="realtype", indent=4) -%}\n{{ declare_params(components, ctype, indent) }}\n{{ declare_deriveds(components, ctype, indent) }}\n{%- endmacro %}\n')
 MUTANTS += [
+    {"name": "physics-helper-only-for-networks-with-ice", "file": PHYS_H, "old": "{{ spec }}double GetMantleDens(double *y);\n",
+     "new": '{% if network.species | selectattr("is_surface") | list %}\n{{ spec }}double GetMantleDens(double *y);\n{% endif %}\n', "rules": ["R2"]},
     {"name": "jacobian-declares-grains-before-reactions", "file": JAC, "old": "{% set components = network.reactions + network.grains + network.heating + network.cooling -%}",
      "new": "{% set components = network.grains + network.reactions + network.heating + network.cooling -%}", "count": 6, "rules": ["R5"]},
 ]
